@@ -32,10 +32,11 @@ type c03cfg struct {
 	rollout  bool     // rollout targets present (pause/stop)
 	inflight []string // kinds
 	late     []string // late clients: "quick" | "long"
+	sick     bool     // the targets fail their probes after deployment: unhealthy (out of rotation) but with requests in flight
 }
 
 func (c c03cfg) String() string {
-	return fmt.Sprintf("cmd=%s targets=%d rollout=%v inflight=[%s] late=[%s]", c.cmd, c.targets, c.rollout, strings.Join(c.inflight, ","), strings.Join(c.late, ","))
+	return fmt.Sprintf("cmd=%s targets=%d rollout=%v inflight=[%s] late=[%s] sick=%v", c.cmd, c.targets, c.rollout, strings.Join(c.inflight, ","), strings.Join(c.late, ","), c.sick)
 }
 
 func c03Configs(tier string) []c03cfg {
@@ -51,6 +52,10 @@ func c03Configs(tier string) []c03cfg {
 				}
 			}
 			cfgs = append(cfgs, c03cfg{cmd: cmd, targets: 2, inflight: []string{"early", "upgrade"}, late: []string{"long"}})
+		}
+		for _, cmd := range []string{"redeploy", "pause", "stop"} {
+			cfgs = append(cfgs, c03cfg{cmd: cmd, targets: 1, inflight: []string{"never", "upgrade"}, sick: true})
+			cfgs = append(cfgs, c03cfg{cmd: cmd, targets: 2, inflight: []string{"early", "after"}, sick: true})
 		}
 		cfgs = append(cfgs, c03cfg{cmd: "pause", targets: 1, rollout: true, inflight: []string{"never", "upgrade"}, late: []string{"long"}})
 		cfgs = append(cfgs, c03cfg{cmd: "stop", targets: 1, rollout: true, inflight: []string{"early", "after"}, late: []string{"long"}})
@@ -91,6 +96,13 @@ func c03Configs(tier string) []c03cfg {
 					}
 					cfgs = append(cfgs, c03cfg{cmd: cmd, targets: nt, inflight: in, late: l})
 				}
+			}
+		}
+	}
+	for _, cmd := range []string{"redeploy", "pause", "stop"} {
+		for _, in := range sets {
+			if len(in) > 0 {
+				cfgs = append(cfgs, c03cfg{cmd: cmd, targets: 1, inflight: in, sick: true})
 			}
 		}
 	}
@@ -145,7 +157,11 @@ func c03Scenario(c c03cfg) *Scenario {
 	}
 	sc.Run = func(w *World) {
 		for _, n := range olds {
-			w.AddTarget(n)
+			if c.sick {
+				w.AddTarget(n, pOK(), p500())
+			} else {
+				w.AddTarget(n)
+			}
 		}
 		w.AddTarget("na:80")
 		if r := w.Deploy(deployArgs("s1", olds, []string{host}, nil)); r.Err != nil {
@@ -167,7 +183,12 @@ func c03Scenario(c c03cfg) *Scenario {
 		var wg vsync.WaitGroup
 		for i, k := range c.inflight {
 			wg.Add(1)
-			spec := ReqSpec{ID: fmt.Sprintf("in%d-%s", i, k), Host: host, Plan: c03Inflight[k]}
+			plan := c03Inflight[k]
+			if c.sick && strings.HasPrefix(plan, "delay=") {
+				d, _ := time.ParseDuration(strings.TrimPrefix(plan, "delay="))
+				plan = "delay=" + (d + 500*time.Millisecond).String()
+			}
+			spec := ReqSpec{ID: fmt.Sprintf("in%d-%s", i, k), Host: host, Plan: plan}
 			if k == "upgrade" {
 				spec.Upgrade = true
 			}
@@ -183,6 +204,11 @@ func c03Scenario(c c03cfg) *Scenario {
 			})
 		}
 		time.Sleep(100 * time.Millisecond)
+		if c.sick {
+			// wait for the probe that marks the targets unhealthy (the in-flight plans are
+			// relative to the command start, so they are shifted by the same amount)
+			time.Sleep(500 * time.Millisecond)
+		}
 		w.S.SetWindow(true)
 		wg.Add(1)
 		vsched.GoTagged("cmd", func() {
